@@ -153,6 +153,8 @@ func c01Run(c *Ctx) {
 				})
 		}
 	})
+	// documents that repeat a field name
+	duplicateKeyCheck(c, "leak", "acct", []Flags{{}, {N: true, B: true, F: []string{"hr.staff"}}, {Y: true, I: true, W: true}, {REmpty: true}}, nil)
 	// the real CLI flag wiring: one run per flag set over the L0 corpus
 	cliCorpusPass(c, "L0", corpus, append(flagSets("NBIWRFY", "dbZq1.coQx7"), Flags{REmpty: true}, Flags{REmpty: true, Y: true}, Flags{REmpty: true, N: true, B: true, F: []string{"dbZq1.coQx7"}}, Flags{REmpty: true, Y: true, W: true, I: true}), false)
 }
